@@ -488,27 +488,39 @@ def _link_denied_raises(node, par, stop):
     return True                               # no handler at all: it propagates
 
 
-def strict_stat_facts(snap):
-    """`isfile_strict` / `path_exists_strict` of _common.py: is PermissionError re-raised before the
-    generic `except OSError` that answers False?"""
+def _stat_clause_action(h):
+    """what one `except` clause of a strict stat helper does: True = answers False (`return False`), False = re-raises
+    (bare `raise` as its only statement); anything else is not a shape the model has"""
+    if len(h.body) == 1 and isinstance(h.body[0], ast.Raise) and h.body[0].exc is None:
+        return False
+    if len(h.body) == 1 and isinstance(h.body[0], ast.Return) and extract.const(h.body[0].value) is False:
+        return True
+    raise NotRecognised("strict stat helper: handler body %s" % ast.unparse(h).splitlines()[1:])
+
+
+def strict_stat_facts(snap, name):
+    """`isfile_strict` / `path_exists_strict` of _common.py (one helper per call, so that an unrecognised shape of one
+    costs only its own facts): the `except` clauses of the `try` around `os.stat(path)` in source order — (classes
+    named, answers False?) — and, derived from them, whether a PermissionError leaves the helper (re-raised by the
+    first clause that catches it, or caught by no clause at all)."""
     tree = extract.parse_module(snap, "_common.py")
-    out = {}
-    for name in ("isfile_strict", "path_exists_strict"):
-        fn = extract.find_def(tree, name)
-        tries = [s for s in fn.body if isinstance(s, ast.Try)]
-        if len(tries) != 1:
-            raise NotRecognised("%s: one try expected" % name)
-        t = tries[0]
-        if not any(isinstance(n, ast.Call) and extract.dotted(n.func) == "os.stat" for s in t.body for n in ast.walk(s)):
-            raise NotRecognised("%s: os.stat(path) inside the try" % name)
-        reraises = False
-        for h in t.handlers:
-            classes = _handler_classes(h)
-            if any(c in CATCH_ALL + ("PermissionError",) for c in classes):
-                reraises = (len(h.body) == 1 and isinstance(h.body[0], ast.Raise) and h.body[0].exc is None)
-                break
-        out[name] = reraises
-    return out
+    fn = extract.find_def(tree, name)
+    tries = [s for s in ast.walk(fn) if isinstance(s, ast.Try)]
+    if len(tries) != 1:
+        raise NotRecognised("%s: one try expected" % name)
+    t = tries[0]
+    stats = [n for n in ast.walk(fn) if isinstance(n, ast.Call) and extract.dotted(n.func) in ("os.stat", "os.lstat")]
+    if len(stats) != 1 or extract.dotted(stats[0].func) != "os.stat" or not any(_contains(b, stats[0]) for b in t.body):
+        raise NotRecognised("%s: exactly one os.stat(path), inside the try" % name)
+    if t.finalbody:
+        raise NotRecognised("%s: finally clause" % name)
+    handlers = [(_handler_classes(h), _stat_clause_action(h)) for h in t.handlers]
+    reraises = True                       # caught by no clause: it propagates
+    for classes, answers_false in handlers:
+        if any(c in CATCH_ALL + ("PermissionError",) for c in classes):
+            reraises = not answers_false
+            break
+    return {"denied_raises": reraises, "handlers": handlers}
 
 
 def wrap_facts(tree):
@@ -713,8 +725,8 @@ def facts(snap, F):
     F.try_add("ioIntGuarded", "Bool", lambda: lean_bool(i()["guarded"]),
               "int(value) sits inside the try whose `except ValueError` skips the line")
 
-    def st():
-        return get("strict", lambda _t: strict_stat_facts(snap))
+    def st(name):
+        return get("strict:" + name, lambda _t: strict_stat_facts(snap, name))
 
     def w():
         return get("wrap", wrap_facts)
@@ -722,9 +734,9 @@ def facts(snap, F):
     def has_exact(classes, name):
         return lean_bool(any(c in (name,) + CATCH_ALL for c in classes))
 
-    F.try_add("isfileDeniedRaises", "Bool", lambda: lean_bool(st()["isfile_strict"]),
+    F.try_add("isfileDeniedRaises", "Bool", lambda: lean_bool(st("isfile_strict")["denied_raises"]),
               "isfile_strict re-raises PermissionError (EACCES / EPERM from os.stat) instead of answering False")
-    F.try_add("existsDeniedRaises", "Bool", lambda: lean_bool(st()["path_exists_strict"]),
+    F.try_add("existsDeniedRaises", "Bool", lambda: lean_bool(st("path_exists_strict")["denied_raises"]),
               "path_exists_strict re-raises PermissionError instead of answering False")
     F.try_add("linkGoneDenied", "Bool", lambda: has_exact(o("link")["link_gone"], "PermissionError"),
               "the handler around readlink(file) that sets hit_enoent also catches PermissionError")
@@ -765,3 +777,13 @@ def facts(snap, F):
     F.try_add("numFdsCap", "Option Nat", lambda: lean_opt(n()["cap"], lean_nat), "N of min(len(...), N) in num_fds (none: no cap)")
     F.try_add("ioIterFile", "Bool", lambda: lean_bool(get("ioiter", io_iter_fact)),
               "io_counters reads `for line in f` over the object of `with open_binary(<procfs>/<pid>/io) as f`, each line stripped, empty ones skipped")
+
+    # ---- seeded round 5: os.stat failing with an errno other than ENOENT / EACCES / EPERM
+    def handlers(name):
+        return lean_list(st(name)["handlers"],
+                         lambda h: "(%s, %s)" % (lean_list(h[0], lambda c: lean_bytes(c.encode())), lean_bool(h[1])))
+
+    F.try_add("isfileHandlers", "List (List (List Nat) × Bool)", lambda: handlers("isfile_strict"),
+              "except clauses of the try around os.stat(path) in isfile_strict, in source order: (classes named, true = the clause answers False / false = it re-raises)")
+    F.try_add("existsHandlers", "List (List (List Nat) × Bool)", lambda: handlers("path_exists_strict"),
+              "the same for path_exists_strict")
